@@ -211,6 +211,15 @@ func (w *world) plugin() *schema.CallableSchema {
 				return "undeclared", stepOut{Message: "x"}
 			case "panic":
 				panic("step handler panics on request")
+			case "panic_int":
+				panic(42)
+			case "panic_err":
+				panic(fmt.Errorf("step handler panics with an error value"))
+			case "panic_struct":
+				panic(struct{ A int }{7})
+			case "panic_nilmap":
+				var m map[string]int
+				m["x"] = 1 // a runtime error
 			case "baddata":
 				return "success", 5
 			case "declared_error":
@@ -969,6 +978,10 @@ func clientMessage(op scriptOp) []byte {
 		if op.Variant == "payload_type" {
 			data = "a string where a work-start message belongs"
 		}
+		if op.Variant == "no_run_key" {
+			// the envelope has no run_id key at all (a missing field, not an empty one)
+			return enc(map[string]any{"id": atp.MessageTypeWorkStart, "data": data})
+		}
 		return enc(atp.RuntimeMessage{MessageID: atp.MessageTypeWorkStart, RunID: runID, MessageData: data})
 	case "sig":
 		sigID := "sig"
@@ -984,6 +997,9 @@ func clientMessage(op scriptOp) []byte {
 		var data any = atp.SignalMessage{SignalID: sigID, Data: d}
 		if op.Variant == "payload_type" {
 			data = 17
+		}
+		if op.Variant == "no_run_key" {
+			return enc(map[string]any{"id": atp.MessageTypeSignal, "data": data})
 		}
 		return enc(atp.RuntimeMessage{MessageID: atp.MessageTypeSignal, RunID: runID, MessageData: data})
 	case "cd":
@@ -1130,11 +1146,11 @@ func (w *world) serverSession(res *result) {
 				// abstract kind and the run ID the server's reply will carry (spec/ATPServerEnv.tla)
 				kind, run := op.Kind, op.Run
 				switch {
-				case op.Kind == "ws" && (op.Variant == "no_run" || op.Variant == "no_step"):
+				case op.Kind == "ws" && (op.Variant == "no_run" || op.Variant == "no_step" || op.Variant == "no_run_key"):
 					kind, run = "wsbad", ""
 				case op.Kind == "ws" && op.Variant == "payload_type":
 					kind = "wsbad"
-				case op.Kind == "sig" && op.Variant == "no_run":
+				case op.Kind == "sig" && (op.Variant == "no_run" || op.Variant == "no_run_key"):
 					kind, run = "bad", ""
 				case op.Kind == "sig" && op.Variant == "payload_type":
 					kind = "bad"
